@@ -40,7 +40,11 @@ CHECKS["C01"] = dict(
           "||a-b|-d| <= tau, no pair of points closer than d - tau, some pair within d + 3 tau, tau = 1e-5 L. Theorems about the Gallina model "
           "of the loop itself (Model/JoltLoop.v: _distance_loop, calculate_closest_points, the driver), over the reals and for ARBITRARY sets "
           "given through support mappings: the P/Q/Y row relation and v_len_sq = |dir|^2 are invariants of every execution; the Clipped exit "
-          "is sound; the duality-gap lower bound; the two classical GJK lemmas; the no-improvement exit reports the exact distance (partial: "
+          "is sound; the duality-gap lower bound; the two classical GJK lemmas; the barycentric weights of calculate_closest_points sum to one "
+          "in every arm (four rows: for a non-flat tetrahedron), so a and b are one affine combination of the support points of A resp. B and "
+          "a - b is that combination of Y's rows (C01_closest_points_affine), hence a in A, b in B for convex colliders when the weights are "
+          "non-negative (C01_closest_points_feasible_partial: non-negativity is the solver's carrier property, a hypothesis; non-vacuity "
+          "Example with weights 1/2, 1/2); the no-improvement exit reports the exact distance (partial: "
           "under two hypotheses about the simplex solver - its result is a minimum-norm point of the hull of its rows, the current closest point "
           "lies in the hull of the current rows - which C18 proves for the line and the non-degenerate triangle arms and REFUTES inside the "
           "solver's epsilon bands (C18_jolt_refuted: false in general for tetrahedra); not discharged here; "
